@@ -9,6 +9,9 @@ A property module (harness/props/cNN.py) defines a `Prop` subclass instance with
 """
 from __future__ import annotations
 
+import sys as _sys
+if hasattr(_sys, "set_int_max_str_digits"):      # exact rationals from the Lean drivers can have thousands of digits (CPython's default limit is 4300)
+    _sys.set_int_max_str_digits(0)
 import fcntl
 import hashlib
 import json
